@@ -54,7 +54,8 @@ def fanout(P, R):
         a = s.ev['args']
         ld = a[0]['name'] if is_var(a[0]) else None
         src = None
-        for d in f.local_defs(ld) if ld else []:
+        cands = [d for d in (f.local_defs(ld) if ld else []) if d.line <= s.line and (d.bid == s.bid or f.dominates(d.bid, s.bid))]
+        for d in sorted(cands, key=lambda t: t.line):
             v = d.ev.get('rhs') or d.ev.get('init') or {}
             if v.get('k') == 'idx' and on_path(v, 'vec') and on_path(v, 'logs'):
                 src = v
